@@ -367,6 +367,10 @@ def decode_response(data, ver):
                        'time_stamp': h.time_stamp.value}}
 
 
+class ThreadedXRunner(XRunner):
+    threaded = True
+
+
 class SessRunner(XRunner):
     """XRunner whose requests travel as encoded frames through a real KmipSession per client connection; the fresh side of
     every comparison is a NEW connection (new session object) to a fresh engine on a copy of the database."""
@@ -734,6 +738,32 @@ def gen_history(ctx, rng, run, length, ckp_budget):
                 pw = who if rng.random() < 0.6 else c07.pick_who(rng)
                 run.request(pw, c07.pick_version(rng), False, [idless(rng)])
                 n += 1
+        elif x < 0.38 and tr.live():                   # read X, somebody else changes X (on the other serving thread), read X again
+            ctx.count('pattern.read_foreign_change_read')
+            rec = rng.choice(tr.live())
+            tgt = ['lit', rec['uid']]
+            reader = rec['owner'] if rng.random() < 0.7 else c07.pick_who(rng)
+            changer = (rng.randrange(4) + 100) if (rec.get('pol') and rng.random() < 0.6) else rec['owner']
+            rk = rng.choice(['AGetAttributes', 'AGetAttributes', 'AGet', 'AGetAttributeList'])
+            run.request(reader, ver, False, [{'op': 'addr', 'k': rk, 'tgt': tgt}])
+            ck = rng.choice(['AActivate', 'AActivate', 'ARevoke', 'AModifyAttribute', 'ADeleteAttribute', 'ASetAttribute'])
+            run.request(changer, (2, 0) if ck == 'ASetAttribute' else (1, 2), False,
+                        [{'op': 'addr', 'k': ck, 'tgt': tgt, 'variant': rng.randrange(4)}])
+            run.request(reader, ver, True, [{'op': 'addr', 'k': rk, 'tgt': tgt}, {'op': 'addr', 'k': 'AEncrypt', 'tgt': tgt},
+                                            {'op': 'locatep', 'ft': None, 'off': 0, 'mx': None}])
+            n += 3
+        elif x < 0.41 and tr.live():                   # one identifier, several spellings: address, destroy, address again
+            ctx.count('pattern.spellings_around_destroy')
+            rec = rng.choice(tr.live())
+            tgt, who = ['lit', rec['uid']], rec['owner']
+            sps = [None] + list(c07.SPELLINGS)
+            a_, b_ = rng.choice(sps), rng.choice(sps)
+            run.request(who, ver, False, [{'op': 'addr', 'k': rng.choice(['AGet', 'AGetAttributes', 'AGetAttributeList']), 'tgt': tgt, 'sp': a_}])
+            run.request(who, ver, False, [{'op': 'destroy', 'tgt': tgt, 'sp': b_}])
+            run.request(rng.choice([who, c07.pick_who(rng)]), ver, True,
+                        [{'op': 'addr', 'k': 'AGet', 'tgt': tgt, 'sp': a_}, {'op': 'addr', 'k': 'AGetAttributes', 'tgt': tgt, 'sp': b_},
+                         {'op': 'destroy', 'tgt': tgt, 'sp': a_}])
+            n += 3
         elif x < 0.46:                                 # attribute list of a live object under another protocol version
             tgt = c07.gen_target(rng, tr, allow_none=False, dead_bias=0.1)
             run.request(c07.owner_of(tr, eng, tgt, rng), ver, False, [{'op': 'addr', 'k': 'AGetAttributeList', 'tgt': tgt}])
@@ -848,6 +878,15 @@ def scenarios():
         sc.append(('req', 1, (1, 0), True, [{'op': 'query', 'funcs': [f]}, {'op': 'query', 'funcs': c07.QUERY_FUNCTIONS}], {}))
         sc.append(('req', 0, (1, 2), False, [{'op': 'query', 'funcs': ['QUERY_OPERATIONS']}], {}))
     out.append(sc)
+    # an identifier written in several ways: address by one spelling, destroy by another, ask again by the first
+    A = lambda k, t, sp=None: {'op': 'addr', 'k': k, 'tgt': t, 'sp': sp}
+    sc = [('req', 0, (1, 2), False, [C], {})]
+    for i_, (a_, b_) in enumerate((('zero', None), (None, 'float'), ('space', 'plus'), ('float', 'zero'), ('plus', 'plus'))):
+        sc += [('req', 0, (1, 2), False, [C], {}), ('req', 0, (1, 2), False, [A('AGetAttributes', ['ref', 1 + i_], a_)], {}),
+               ('req', 0, (1, 2), False, [{'op': 'destroy', 'tgt': ['ref', 1 + i_], 'sp': b_}], {}),
+               ('req', 0, (1, 2), True, [A('AGetAttributes', ['ref', 1 + i_], a_), A('AGet', ['ref', 1 + i_], b_), A('AGet', ['ref', 1 + i_])], {}),
+               ('req', 1, (1, 2), False, [A('AGet', ['ref', 1 + i_], a_)], {}), ('req', 0, (1, 2), False, [A('AGet', ['ref', 0], a_)], {})]
+    out.append(sc)
     # a request rejected at message level, then a probe that repeats the rejected header values (any client)
     GAL = {'op': 'addr', 'k': 'AGetAttributeList', 'tgt': ['ref', 0]}
     sc = [('req', 0, (1, 2), False, [C], {})]
@@ -860,6 +899,17 @@ def scenarios():
                    ('req', 0, (1, 4), False, [GAL], {})]
         sc += [('req', 1, (1, 3), False, [C, GAL], {'ids': False}), ('req', 0, (1, 3), False, [GAL, C], {'ids': False}),
                ('req', 0, (1, 3), False, [GAL], {})]
+    out.append(sc)
+    # (served by two threads in turn) a client reads an object, another client changes it, the first reads again
+    T = {'op': 'create', 'good': True, 'rich': True, 'pol': 1}
+    sc = [('req', 0, (1, 2), False, [T], {}), ('req', 0, (1, 2), False, [T], {}), ('req', 0, (1, 2), False, [C], {})]
+    for i_, (ck, var, changer) in enumerate((('AActivate', 0, 101), ('AModifyAttribute', 0, 101), ('ARevoke', 1, 0), ('ADeleteAttribute', 0, 302))):
+        for rk in ('AGetAttributes', 'AGet'):
+            tgt = ['ref', i_ % 2]
+            sc += [('req', 0, (1, 2), False, [A(rk, tgt)], {}), ('req', changer, (1, 2), False, [dict(A(ck, tgt), variant=var)], {}),
+                   ('req', 0, (1, 2), True, [A(rk, tgt), A('AEncrypt', tgt), {'op': 'locatep', 'ft': None, 'off': 0, 'mx': None}], {})]
+    sc += [('req', 0, (1, 2), False, [A('AGetAttributes', ['ref', 2])], {}), ('req', 0, (1, 2), False, [A('AActivate', ['ref', 2])], {}),
+           ('req', 0, (1, 2), False, [A('AGetAttributes', ['ref', 2])], {}), ('req', 0, (1, 2), False, [A('AEncrypt', ['ref', 2])], {})]
     out.append(sc)
     return out
 
@@ -1017,7 +1067,7 @@ def replay_events(run, events):
         elif ev['ev'] == 'bad_frame':
             run.bad_frame(ev['who'], ev.get('length'))
         else:
-            specs = [{k: v for k, v in it.items() if k in ('op', 'good', 'rich', 't', 'bases', 'tgt', 'w', 'k', 'variant', 'pol', 'prot', 'vs', 'funcs')}
+            specs = [{k: v for k, v in it.items() if k in ('op', 'good', 'rich', 't', 'bases', 'tgt', 'w', 'k', 'variant', 'pol', 'prot', 'vs', 'funcs', 'ft', 'off', 'mx', 'sp')}
                      for it in ev['items']]
             run.request(ev['who'], tuple(ev['ver']), ev['cont'], specs, stamp=ev.get('stamp', 'absent'),
                         asynchronous=ev.get('async'), undo=ev.get('undo', False), ids=ev.get('ids'), max_size=ev.get('max_size'))
@@ -1103,6 +1153,10 @@ def run(ctx):
             run_.threaded = threaded
             if threaded:
                 ctx.count('history.every_request_on_its_own_thread')
+                # what a thread-bound session still holds of an object depends on when the cycle collector last ran (SQLAlchemy's
+                # identity map is weak): a server under light load does not collect between two requests - neither does this run
+                import gc
+                gc.disable()
             try:
                 if script is not None:
                     play(run_, script)
@@ -1112,7 +1166,7 @@ def run(ctx):
                 run_.coq = run_.coq[:len(run_.events) - 1]      # the history ends here; the hit is recorded
                 run_.events = run_.events[:len(run_.coq)]
             histories.append((cp.lst(['(%s, %s)' % p for p in run_.coq], str), run_.events))
-            all_hits.extend(run_.hits)
+            all_hits.extend([(dict(sg, threaded=True), dict(w_, threaded=True), wh) for sg, w_, wh in run_.hits] if threaded else run_.hits)
             forks[0] += run_.forks
             prev = None
             for ev, (evt, obt) in zip(run_.events, run_.coq):
@@ -1125,16 +1179,20 @@ def run(ctx):
                 ctx.case_seen((evt, obt), nontrivial=nontriv)
                 prev = ev
         finally:
+            if threaded:
+                import gc
+                gc.enable()
+                gc.collect()
             eng.close()
 
     scs = scenarios()
     for i, sc in enumerate(scs):
-        one(script=sc, threaded=(i >= len(scs) - 2))
+        one(script=sc, threaded=(i >= len(scs) - 3))
     n_hist = 40 if quick else 300
     for k in range(n_hist):
         one(seed_name='hist%d' % k, length=ctx.subrng('len%d' % k).randrange(10, 40), threaded=(k % 3 == 2))
     ctx.count('probe.live_vs_fresh_comparisons', forks[0])
-    ctx.log('ran %d histories, %d events, %d live-vs-fresh comparisons' % (len(histories), sum(len(e) for _, e in histories), forks[0]))
+    ctx.log('ran %d histories, %d events, %d live-vs-fresh comparisons, %d oracle hits' % (len(histories), sum(len(e) for _, e in histories), forks[0], len(all_hits)))
 
     bad = ctx.run_cases('histories', HEADER, [h for h, _ in histories], 'xcheck_history', shard=25,
                         what='Isolation.Model.run_history_t vs the live KmipEngine: request-level error class, class of every item, '
@@ -1207,7 +1265,15 @@ def run(ctx):
         if first:
             first = False
             try:
-                got = shrink(ctx, w['history'])
+                import gc
+                if w.get('threaded'):
+                    gc.disable()
+                try:
+                    got = shrink(ctx, w['history'], runner=ThreadedXRunner if w.get('threaded') else None)
+                finally:
+                    gc.enable()
+                if got is not None and w.get('threaded'):
+                    got = (dict(got[0], threaded=True), dict(got[1], threaded=True), got[2])
                 if got is not None:
                     n0 = len(w['history'])
                     sig, w, what = got
@@ -1232,6 +1298,9 @@ def replay(ctx, data):
         conn_level = w.get('level') == 'connection'
         run_ = SessRunner(c07.NullCtx(ctx.work), eng, slugs=bool(w.get('slugs'))) if conn_level else XRunner(c07.NullCtx(ctx.work), eng)
         run_.threaded = bool(w.get('threaded'))
+        if run_.threaded:
+            import gc
+            gc.disable()
         try:
             replay_events(run_, [e for e in events if e.get('error') != 'NO ANSWER'] + [e for e in events if e.get('error') == 'NO ANSWER'])
         except NoAnswer:
